@@ -1,7 +1,7 @@
 """C13 stage 2 — the MOVING mechanics of the library (helper of checks/c13.py).
 
 proof:  PPLV.Props.C13Move over the code-shaped heap-with-ownership models lean/PPLV/Value/Move.lean (Swapping_Vector:
-        reserve / resize by swapping into a new vector, erase, clear, m_swap; Linear_System: insert / insert_pending of a
+        reserve / resize by swapping into a new vector, erase(first, last), erase(iterator) [after the repair of KF-C13-17], clear, m_swap; Linear_System: insert / insert_pending of a
         row and of a system with Recycle_Input, the const overloads that copy first, copy constructors, operator=,
         assign_with_pending, m_swap, clear), MovePoly.lean (Constraint_System::insert(Constraint&, Recycle_Input),
         merge_rows_assign, Polyhedron::add_recycled_constraints / add_recycled_generators / add_constraints / m_swap /
@@ -40,31 +40,6 @@ def _chunk(ctx, h, drv, wd, k, seed, first, last):
     return open(jp).read().splitlines(), out.splitlines()
 
 
-def _erase_one(ctx, h, cov):
-    """Swapping_Vector<T>::erase(iterator) as written loops for ever unless the element is the last one
-    (model: C13.swapping_vector_erase_one_diverges / _last).  Dead code in the library; run with 1 CPU second."""
-    res = {}
-    for idx in (2, 0):
-        rc, out, err = ctx.run([h, "--erase-one", str(idx)], timeout=60)
-        lines = (out or "").splitlines()
-        res[idx] = "returned" if any(l.startswith("erase_one_returned 2") for l in lines) else \
-                   ("cpu_limit" if any("SIGXCPU" in l or "SIGKILL" in l for l in lines) else "other:" + " ".join(lines)[:100])
-    cov["erase_iterator"] = {"last_element": res[2], "first_of_three": res[0]}
-    if res[2] != "returned":
-        ctx.violation("Swapping_Vector::erase(iterator) on the last element: %s (model: returns)" % res[2],
-                      {"harness_args": ["--erase-one", "2"], "move": True}, found_input=True,
-                      record={"site": "Swapping_Vector::erase(iterator)", "tags": ["last_element"]})
-    if res[0] != "cpu_limit":
-        # the model says it diverges; a library that returns here has been repaired: the model must follow
-        ctx.violation("Swapping_Vector::erase(iterator) on a non-last element: %s (model of the code as written: does not terminate)" % res[0],
-                      {"harness_args": ["--erase-one", "0"], "move": True}, found_input=True,
-                      record={"site": "Swapping_Vector::erase(iterator)", "tags": ["model_says_diverges_library_returns"]})
-    else:
-        ctx.violation("Swapping_Vector::erase(iterator) on a non-last element does not terminate (`i` is never incremented)",
-                      {"harness_args": ["--erase-one", "0"], "move": True, "site": "Swapping_Vector::erase(iterator)"}, found_input=True,
-                      record={"site": "Swapping_Vector::erase(iterator)", "tags": ["not_last_element", "dead_code_in_library"]})
-
-
 def run(ctx, replay=None):
     """returns the list of broken proof obligations (the caller reports them)."""
     broken = [] if replay else ctx.prove(PROPS)
@@ -78,8 +53,11 @@ def run(ctx, replay=None):
            "mismatch_obligations": collections.Counter(), "crashes": 0, "cases_lost_after_crash": 0}
     if replay:
         a = replay.get("harness_args", [])
-        if "--erase-one" in a:
-            _erase_one(ctx, h, cov)
+        if "--erase-one" in a:          # replay files written before erase(iterator) became an ordinary case
+            rc, out, err = ctx.run([h] + [str(x) for x in a], timeout=60)
+            if "erase_one_returned" not in (out or ""):
+                ctx.violation("Swapping_Vector::erase(iterator) does not return: %s" % (out or "")[:200], {"move": True, "harness_args": a},
+                              found_input=True, record={"site": "Swapping_Vector::erase(iterator)", "tags": ["not_last_element"]})
             return broken
         seed, ranges = int(a[a.index("--seed") + 1]), [(int(a[a.index("--first") + 1]), int(a[a.index("--last") + 1]))]
     else:
@@ -90,8 +68,10 @@ def run(ctx, replay=None):
         outs = list(ex.map(lambda kr: _chunk(ctx, h, drv, wd, kr[0], seed, kr[1][0], kr[1][1]), enumerate(ranges)))
     ncases = 0
     samples = []
+    planned = sum(b - a for a, b in ranges)
     for journal, verdicts in outs:
         by_id, last_begin, lost = {}, None, 0
+        begun = sum(1 for l in journal if l.startswith("mbegin "))
         for l in journal:
             t = l.split(None, 3)
             if t and t[0] == "mv":
@@ -102,7 +82,9 @@ def run(ctx, replay=None):
             elif t and t[0] == "crash":
                 cov["crashes"] += 1
                 cid = last_begin
-                ctx.violation("crash %s in the moving operation of case %s" % (" ".join(t[1:]), cid),
+                if sum(1 for v in ctx.violations) >= 40:
+                    continue
+                ctx.violation("crash %s in the moving operation of case %s (SIGXCPU = the call did not return within the CPU limit of its batch)" % (" ".join(t[1:]), cid),
                               {"move": True, "harness_args": ["--seed", str(seed), "--first", str(cid), "--last", str(int(cid or 0) + 1)],
                                "replay_cmd": "bin/check C13 --replay <this file>"},
                               found_input=True, record={"site": "move:crash", "tags": ["crash"]})
@@ -130,8 +112,7 @@ def run(ctx, replay=None):
                                "harness_args": ["--seed", str(seed), "--first", cid, "--last", str(int(cid) + 1)],
                                "replay_cmd": "bin/check C13 --replay <this file>"},
                               found_input=True, record={"site": "move:" + op, "tags": ["obl_" + obl]})
-    if not replay:
-        _erase_one(ctx, h, cov)
+    cov["cases_lost_after_crash"] = planned - ncases      # the rest of a batch after a crash is not run
     if not quick and not broken and not replay:
         broken += ctx.leanchecker(PROPS)
     ctx.cov["c13_move"] = {
@@ -139,7 +120,7 @@ def run(ctx, replay=None):
                                  "dense or sparse argument systems, polyhedra in every lazy state reached by short public histories)",
         "verified_cases": sum(cov["ops"].values()), "ops": dict(cov["ops"]), "paths": dict(cov["paths"]),
         "skipped_not_modelled": dict(cov["skipped"]), "mismatch_obligations": dict(cov["mismatch_obligations"]),
-        "crashes": cov["crashes"], "erase_iterator": cov.get("erase_iterator"), "samples": samples,
+        "crashes": cov["crashes"], "cases_lost_after_crash": cov["cases_lost_after_crash"], "samples": samples,
     }
     shutil.rmtree(wd, ignore_errors=True)
     ctx.assumptions += [
